@@ -128,7 +128,10 @@ def solver_cli(world, path, save, log=None, cfg=None, entropy=0, capture=None):
     rng = random.Random(entropy) if entropy else None
     shown = path
     if rng is not None and not path.startswith("/"):
-        shown = rng.choice([path, path, "./" + path, path.split("/")[0] + "/../" + path])   # same file, other spelling
+        alts = [path, path, "./" + path]
+        if "/" in path:
+            alts.append(path.split("/")[0] + "/../" + path)
+        shown = rng.choice(alts)   # same file, other spelling
     groups = [[rng.choice(["-f", "--file"]) if rng else "-f", shown]]
     if rng is not None and rng.random() < 0.3:
         groups = [[groups[0][0] + "=" + shown]] if groups[0][0] == "--file" else groups
